@@ -500,6 +500,23 @@ class ExprCanon(ast.NodeTransformer):
 
     def visit_Call(self, node):
         self.generic_visit(node)
+        # f(a, *(x, y)) is f(a, x, y); f(**{'k': v}) is f(k=v)   (displays unpacked on the spot)
+        if any(isinstance(a_, ast.Starred) and isinstance(a_.value, (ast.Tuple, ast.List)) and not any(isinstance(e_, ast.Starred) for e_ in a_.value.elts) for a_ in node.args):
+            flat = []
+            for a_ in node.args:
+                if isinstance(a_, ast.Starred) and isinstance(a_.value, (ast.Tuple, ast.List)) and not any(isinstance(e_, ast.Starred) for e_ in a_.value.elts):
+                    flat.extend(a_.value.elts)
+                else:
+                    flat.append(a_)
+            node.args = flat
+        if any(k_.arg is None and isinstance(k_.value, ast.Dict) and all(isinstance(x_, ast.Constant) and isinstance(x_.value, str) and x_.value.isidentifier() for x_ in k_.value.keys) for k_ in node.keywords):
+            kws = []
+            for k_ in node.keywords:
+                if k_.arg is None and isinstance(k_.value, ast.Dict) and all(isinstance(x_, ast.Constant) and isinstance(x_.value, str) and x_.value.isidentifier() for x_ in k_.value.keys):
+                    kws.extend(ast.keyword(arg=x_.value, value=v_) for x_, v_ in zip(k_.value.keys, k_.value.values))
+                else:
+                    kws.append(k_)
+            node.keywords = kws
         f0 = node.func
         # operator.itemgetter(k)(x) is x[k]; attrgetter('a')(x) is x.a; methodcaller('m', *a)(x) is x.m(*a)
         if isinstance(f0, ast.Call) and len(node.args) == 1 and not node.keywords and not f0.keywords and not isinstance(node.args[0], ast.Starred):
